@@ -254,6 +254,44 @@ def reader_case(rng):
     return c
 
 
+def live_case(rng):
+    """a reader opened on the BufferWriter's shared array while the writer keeps writing, and a writer that is
+    reused after its bytes were moved out: the reader sees what has been written by the time of each call"""
+    c = []
+    pend = []          # types written and not yet read
+    for _ in range(rng.randint(0, 2)):
+        ty = rng.pick(PODS + ["str"]) if rng.chance(0.7) else pick_type(rng)
+        c.append("w %s %s" % (ty, gen_value(rng, ty, False)))
+        pend.append(read_type(rng, ty))
+    c.append("rd_open bw")
+    for _ in range(rng.randint(4, 14)):
+        r = rng.random()
+        if r < 0.40:
+            ty = rng.pick(PODS + ["str"]) if rng.chance(0.7) else pick_type(rng)
+            c.append("w %s %s" % (ty, gen_value(rng, ty, False)))
+            pend.append(read_type(rng, ty))
+        elif r < 0.75 and pend:
+            c.append("r " + pend.pop(0))
+        elif r < 0.85:
+            c.append("rd_end")
+        elif r < 0.90:
+            c.append("%s %d" % (rng.pick(["rd_read", "rd_view"]), rng.randrange(0, 5)))
+            pend = []      # raw reads desynchronise the typed stream: open a fresh reader
+            c.append("bw_take " + rng.pick(["ctor", "assign"]))
+            c.append("rd_open bw")
+        else:
+            c.append("bw_take " + rng.pick(["ctor", "assign"]))
+            c.append("dump")
+            c.append("rd_end")
+            c.append("rd_open bw")
+            pend = []
+    for t in pend:
+        c.append("r " + t)
+    c.append("rd_end")
+    c.append("r u8")
+    return c
+
+
 def exhaustive_small():
     """all write/reserve size sequences of length <= 3 against capacities 0..5 (sizes 0..cap+1) and the
     same for reads on buffers of 0..5 bytes"""
@@ -287,6 +325,8 @@ def gen_cases(rng, tier, h):
         cases.append(fixed_case(rng))
     for _ in range(600 if quick else 6000):
         cases.append(reader_case(rng))
+    for _ in range(400 if quick else 5000):
+        cases.append(live_case(rng))
     if not quick:
         cases.extend(exhaustive_small())
     return cases
